@@ -4,6 +4,7 @@ import KoordVerif.Model.C12Static
 import KoordVerif.Model.C12Env
 import KoordVerif.Model.C12Parse
 import KoordVerif.Model.C12Kind
+import KoordVerif.Model.C12Rule
 /-
 Driver for C12.  One case = one history on one cgroup tree:
   tree <res> <v2> <n> <parent_0..parent_{n-1}> <old_0..old_{n-1}>
@@ -27,6 +28,12 @@ Output per `none` line: `w <node> <value>` …, then `st …`.
       applyBESuppressCPUSet; kind: 0 NodeTopo nil, 1 policy annotation unparsable, 2 static, 3 none/other;
       rec = calcBECPUSet result (bitmask), -1 = it failed; dir depths are derived from the `be` parents.
 Output per `sup` line: as for `none`, with a line `err` before `st` for kinds 0 and 1.
+
+Fourth kind of case (harnesses `quota` / `normquota`): every line is one pod handed to the real CFS-quota setters
+(Model/C12Rule.lean; ratio100 = ratio * 100, negative = no ratio; limits in milli-cpu, -1 = no limit entry):
+  pq <ratio100> <enabled> <lims…>   batchresource SetPodCFSQuota / SetContainerCFSQuota → `q <pod> <ctr…>`
+  nq <ratio100> <lims…>             cpunormalization AdjustPodCFSQuota / AdjustContainerCFSQuota → `q <pod> <ctr…>`,
+                                    -2 = Response.Resources.CFSQuota left nil
 
 Third kind of case (harness `parse`): every line is one call of a string-level function; strings are
 sequences of character codes:
@@ -85,6 +92,29 @@ def runParseLine (line : String) : String :=
       | 1 => showMerge (mcCfsQuota false old new)
       | 2 => showMerge (mcCfsQuota true old new)
       | _ => "bad-op"
+    | _ => "bad-op"
+  | _ => "bad-op"
+
+/-- `int64(math.Ceil(float64(q) / ratio))` for ratio > 1.0, else unchanged; ratio = ratio100 / 100 as float64. -/
+def scaleOf (ratio100 : Int) : Int → Int := fun q =>
+  let r : Float := Float.ofInt ratio100 / 100.0
+  if r > 1.0 then (Float.ceil (Float.ofInt q / r)).toInt64.toInt else q
+
+def runQuotaLine (line : String) : String :=
+  match toks line with
+  | "pq" :: ts =>
+    match ints? ts with
+    | some (ratio100 :: enabled :: lims) =>
+      if enabled = 0 then "q " ++ showInts ((-1 : Int) :: lims.map fun _ => (-1 : Int))
+      else "q " ++ showInts (podQuota (scaleOf ratio100) lims :: lims.map (ctrQuota (scaleOf ratio100)))
+    | _ => "bad-op"
+  | "nq" :: ts =>
+    match ints? ts with
+    | some (ratio100 :: lims) =>
+      -- rule off (no ratio): nothing is set; a quota that is not positive (no limit) is left alone
+      let pod := if lims.isEmpty then (-1 : Int) else baseQuota lims.sum
+      let one := fun (b : Int) => if ratio100 < 0 || b ≤ 0 then (-2 : Int) else scaledQuota (scaleOf ratio100) b
+      "q " ++ showInts (one pod :: lims.map fun l => one (baseQuota l))
     | _ => "bad-op"
   | _ => "bad-op"
 
@@ -235,6 +265,7 @@ def runCase (lines : List String) : List String :=
   | first :: rest =>
     match toks first with
     | "pcs" :: _ | "fcs" :: _ | "eqcs" :: _ | "mcs" :: _ | "mlim" :: _ => lines.map runParseLine
+    | "pq" :: _ | "nq" :: _ => lines.map runQuotaLine
     | "be" :: ts =>
       match nats? ts with
       | some (n :: vals) =>
